@@ -299,6 +299,13 @@ def rules(rep, m):
             if core["kind"] == "ArraySubscriptExpr":
                 i_ = strip(kids(core)[1], casts=True)
                 elem_ok = i_["kind"] == "DeclRefExpr" and iv_.get(i_["ref"]["name"]) == ("0", 1)
+                if not elem_ok:
+                    # a count-down loop `for (j = N; j > 0; j--)` that designates element N - j: 0 .. N-1 again
+                    ic = cx.canon(i_)
+                    for nm_, (e_, d_) in iv_.items():
+                        if d_ == -1 and ic == "(%s - %s)" % (e_, nm_) and g_ is not None and g_[0] == nm_ and \
+                                (g_[1], g_[2]) in ((">", "0"), ("!=", "0"), (">=", "1")):
+                            elem_ok = True
             elif core["kind"] == "DeclRefExpr" and core["ref"]["name"] in iv_:
                 e_, d_ = iv_[core["ref"]["name"]]
                 elem_ok = d_ == 1 and inv.storage_root(cx, run, core) == root
